@@ -6,6 +6,7 @@ mod c14;
 mod c20;
 mod common;
 mod compile;
+mod conformance;
 mod entropy;
 mod gen;
 mod group_sim;
@@ -55,6 +56,7 @@ fn parse_args(argv: &[String]) -> Args {
                 a.workers = argv.get(i).and_then(|s| s.parse().ok()).unwrap_or(a.workers).max(1);
             }
             "--quiet" => a.quiet = true,
+            "--dev" => {}
             x => a.rest.push(x.to_string()),
         }
         i += 1;
@@ -138,7 +140,7 @@ fn main() {
             let pairs = |k: &str| -> Vec<(String, String)> {
                 v[k].as_array().map(|a| a.iter().map(|x| (x[0].as_str().unwrap_or("").to_string(), x[1].as_str().unwrap_or("").to_string())).collect()).unwrap_or_default()
             };
-            match compile::compile_group(&pairs("files"), &pairs("scripts")) {
+            match compile::compile_group_opt(&pairs("files"), &pairs("scripts"), argv.iter().any(|a| a == "--dev")) {
                 Ok(c) => {
                     eprintln!("warn_or_worse={}", c.warn_or_worse);
                     print!("{}", c.bundle);
@@ -148,14 +150,77 @@ fn main() {
             }
         }
         "selftest" => match args.rest.first().map(|s| s.as_str()) {
-            Some("determinism") => {
-                let mut code = 0;
-                code |= c20::selftest_determinism(&args);
-                code
+            Some("determinism") => selftest_determinism(&args),
+            Some("fingerprint") => {
+                // printed by a child process of `selftest determinism`
+                let n = args.runs.unwrap_or(300);
+                println!("FINGERPRINT {}", fingerprints(args.seed, n, args.workers).join(" "));
+                0
             }
-            _ => harness_error("selftest determinism"),
+            Some("conformance") => conformance::run(),
+            _ => harness_error("selftest determinism|conformance"),
         },
         x => harness_error(&format!("unknown command {}", x)),
     };
     std::process::exit(code);
+}
+
+/// Event-log fingerprints of every engine for run indices 0..n (seed fixed).
+fn fingerprints(seed: u64, n: u64, workers: usize) -> Vec<String> {
+    let f = |v: Vec<String>| format!("{:016x}", rng::fnv(v.join("\n").as_bytes()));
+    vec![
+        f(rt::determinism_hashes(seed, gen::Prop::C06, n, workers)),
+        f(rt::determinism_hashes(seed, gen::Prop::C07, n, workers)),
+        f(rt::determinism_hashes(seed, gen::Prop::C11, n, workers)),
+        f(c14::determinism_hashes(seed, n, workers)),
+        f(c13::determinism_hashes(seed, n, workers)),
+    ]
+}
+
+/// Every run twice and more: 1 worker vs many workers in this process, and again in fresh OS
+/// processes with other worker counts; event-log hashes must agree run by run.
+fn selftest_determinism(args: &Args) -> i32 {
+    let n = args.runs.unwrap_or(2000);
+    let seed = args.seed;
+    let mut code = c20::selftest_determinism(args);
+    let engines: Vec<(&str, Box<dyn Fn(usize) -> Vec<String>>)> = vec![
+        ("runtime/C06", Box::new(move |w| rt::determinism_hashes(seed, gen::Prop::C06, n, w))),
+        ("runtime/C07", Box::new(move |w| rt::determinism_hashes(seed, gen::Prop::C07, n, w))),
+        ("runtime/C11", Box::new(move |w| rt::determinism_hashes(seed, gen::Prop::C11, n, w))),
+        ("lockstep/C14", Box::new(move |w| c14::determinism_hashes(seed, n, w))),
+        ("links/C13", Box::new(move |w| c13::determinism_hashes(seed, n / 4, w))),
+    ];
+    for (name, f) in &engines {
+        let a = f(1);
+        let b = f(args.workers.max(2));
+        let c = f(5);
+        let bad: Vec<usize> = (0..a.len()).filter(|i| a[*i] != b[*i] || a[*i] != c[*i]).collect();
+        if !bad.is_empty() {
+            println!("DETERMINISM-FAIL engine={} runs {:?}", name, &bad[..bad.len().min(10)]);
+            for i in bad.iter().take(2) {
+                println!("  run {}:\n   1 worker : {}\n   {} workers: {}\n   5 workers: {}", i, a[*i], args.workers.max(2), b[*i], c[*i]);
+            }
+            code = 2;
+        } else {
+            println!("determinism engine={}: {} runs x3 (1, {} and 5 workers; different executor processes) identical; fingerprint {:016x}", name, a.len(), args.workers.max(2), rng::fnv(a.join("\n").as_bytes()));
+        }
+    }
+    // fresh OS processes
+    let here = fingerprints(seed, 300, 3);
+    for w in [2usize, 9] {
+        let out = std::process::Command::new(std::env::current_exe().unwrap())
+            .args(["selftest", "fingerprint", "--runs", "300", "--workers", &w.to_string(), "--seed", &seed.to_string()])
+            .output();
+        let ok = match out {
+            Ok(o) => String::from_utf8_lossy(&o.stdout).lines().any(|l| l == format!("FINGERPRINT {}", here.join(" "))),
+            Err(_) => false,
+        };
+        if ok {
+            println!("determinism across OS processes ({} workers): identical fingerprints {}", w, here.join(" "));
+        } else {
+            println!("DETERMINISM-FAIL across OS processes ({} workers)", w);
+            code = 2;
+        }
+    }
+    code
 }
